@@ -16,7 +16,13 @@ of `pyglove/ext/evolution/base.py`) is observed by a probe:
   * a fresh operator built from the same description (same seeds) gives the
     same outputs on the same inputs, whatever the state of the global RNG, and
     leaves the global RNG as it found it (every random parameter of every
-    generated operator is seeded).
+    generated operator is seeded);
+  * an operator that was brought to its parameters through the symbolic API
+    (rebind, assignment, clone with override, JSON round trip, after earlier
+    calls) gives the same outputs as a fresh operator with these parameters;
+  * where filter objects handed to operators (module constants, user-held
+    objects) keep their state; sealed parents are parents; the lookups of an
+    output (dna[name], dna[id], named_decisions) agree with its decisions.
 """
 import importlib
 import json
@@ -42,7 +48,7 @@ TIERS = {
                   max_pop=8, algos=0.2, histories=1, timeout_s=900,
                   case_timeout_s=600),
     'thorough': dict(shards=16, cases=160, apps=20, kpoint_extra=3, conflict_extra=5,
-                     max_pop=12, algos=0.3, histories=3, timeout_s=5400,
+                     max_pop=12, algos=0.3, histories=2, timeout_s=5400,
                      case_timeout_s=900),
 }
 RULE = ('case = one random search space (gen/spaces.random_space with floats, '
